@@ -96,18 +96,14 @@ class _NeedAtom(Exception):
         self.atom = atom
 
 
-_NO: Any = object()      # no value: not an expression whose value the template spells out itself
-
-
 class _Piece:
-    __slots__ = ("kind", "text", "node", "args", "value")
+    __slots__ = ("kind", "text", "node", "args")
 
-    def __init__(self, kind: str, text: str, node: Any = None, args: tuple = (), value: Any = _NO):
+    def __init__(self, kind: str, text: str, node: Any = None, args: tuple = ()):
         self.kind = kind      # t: literal text | h: hole
         self.text = text      # the text, or the (canonical) text of the expression
         self.node = node      # the expression (holes), the constant (text written from a non-string constant)
         self.args = args      # holes that are calls: the pieces of every argument
-        self.value = value    # holes that print no text of their own but have a value the template spells out: a list, a table
 
     def __repr__(self) -> str:
         return self.text if self.kind == "t" else "‹" + self.text + "›"
@@ -119,139 +115,12 @@ class _Path:
 
     PASS_FILTERS = ("indent", "trim", "safe", "string")
 
-    def __init__(self, ti: Any, env: dict[str, bool], known: Any = None, max_depth: int = 4, whole: bool = False):
+    def __init__(self, ti: Any, env: dict[str, bool], known: Any = None, max_depth: int = 4):
         self.ti = ti
         self.env = env
         self.known = known
         self.max_depth = max_depth
         self.stack: list[str] = []
-        # whole: what is rendered is a whole template, laid out as Jinja lays it out - its top-level `set` variables are seen by its
-        # macros (globals), `indent` indents
-        self.whole = whole
-        self.globals: dict[str, list[_Piece]] = {}
-
-    # -- values the template spells out itself -----------------------------------------------------------------------------------
-    def const(self, e: nodes.Node, vars_: dict, subst: dict) -> Any:
-        """the value of an expression built from literals alone: constants, lists / tuples / dicts of them, names bound to such values
-        (`set`, the variable of an unrolled loop, `loop.first` ...), attribute and item access into them, `~` / `+`, not / and / or,
-        comparisons, conditional expressions, |length.  _NO: anything else.  A table of texts and a loop over it write what the texts
-        written out one by one write."""
-        c = lambda x: self.const(x, vars_, subst)
-        if isinstance(e, nodes.Const):
-            return e.value
-        if isinstance(e, nodes.TemplateData):
-            return e.data
-        if isinstance(e, (nodes.List, nodes.Tuple)):
-            vs = [c(x) for x in e.items]
-            return _NO if any(v is _NO for v in vs) else vs
-        if isinstance(e, nodes.Dict):
-            out: dict = {}
-            for p in e.items:
-                k, v = c(p.key), c(p.value)
-                if k is _NO or v is _NO or isinstance(k, (list, dict)):
-                    return _NO
-                out[k] = v
-            return out
-        if isinstance(e, nodes.Name):
-            ps = vars_.get(e.name)
-            if ps is None:
-                return _NO
-            if len(ps) == 1 and ps[0].value is not _NO:
-                return ps[0].value
-            if len(ps) == 1 and ps[0].kind == "t" and isinstance(ps[0].node, nodes.Const):
-                return ps[0].node.value
-            return "".join(p.text for p in ps) if all(p.kind == "t" for p in ps) else _NO
-        if isinstance(e, nodes.Getattr):
-            v = c(e.node)
-            return v[e.attr] if isinstance(v, dict) and e.attr in v else _NO
-        if isinstance(e, nodes.Getitem):
-            v, k = c(e.node), c(e.arg)
-            if v is _NO or k is _NO:
-                return _NO
-            try:
-                return v[k]
-            except (KeyError, IndexError, TypeError):
-                return _NO
-        if isinstance(e, nodes.Concat):
-            vs = [c(x) for x in e.nodes]
-            return _NO if any(v is _NO or isinstance(v, (list, dict)) for v in vs) else "".join(str(v) for v in vs)
-        if isinstance(e, nodes.Add):
-            a, b = c(e.left), c(e.right)
-            if a is _NO or b is _NO or type(a) is not type(b) or not isinstance(a, (str, list, int)) or isinstance(a, bool):
-                return _NO
-            return a + b
-        if isinstance(e, nodes.Not):
-            v = c(e.node)
-            return _NO if v is _NO else not v
-        if isinstance(e, (nodes.And, nodes.Or)):
-            a = c(e.left)
-            if a is _NO:
-                return _NO
-            return a if bool(a) != isinstance(e, nodes.And) else c(e.right)
-        if isinstance(e, nodes.CondExpr):
-            t = c(e.test)
-            if t is _NO:
-                return _NO
-            return c(e.expr1) if t else c(e.expr2) if e.expr2 is not None else ""
-        if isinstance(e, nodes.Compare) and len(e.ops) == 1:
-            a, b = c(e.expr), c(e.ops[0].expr)
-            ops = {"eq": lambda: a == b, "ne": lambda: a != b, "in": lambda: a in b, "notin": lambda: a not in b, "lt": lambda: a < b,
-                   "lteq": lambda: a <= b, "gt": lambda: a > b, "gteq": lambda: a >= b}
-            if a is _NO or b is _NO or e.ops[0].op not in ops:
-                return _NO
-            try:
-                return ops[e.ops[0].op]()
-            except TypeError:
-                return _NO
-        if isinstance(e, nodes.Filter) and e.node is not None and e.name in ("length", "count") and not e.args and not e.kwargs:
-            v = c(e.node)
-            return len(v) if isinstance(v, (str, list, dict)) else _NO
-        return _NO
-
-    @staticmethod
-    def pieces_of(v: Any, text: str, node: Any = None) -> list[_Piece]:
-        """what a value the template spells out prints as"""
-        if isinstance(v, str):
-            return [_Piece("t", v)]
-        if v is None or isinstance(v, (bool, int, float)):
-            return [_Piece("t", str(v), nodes.Const(v))]
-        return [_Piece("h", text, node, (), v)]
-
-    def bind(self, target: nodes.Node, v: Any, vars_: dict) -> bool:
-        """the target of a loop bound to one item of a list the template spells out"""
-        if isinstance(target, nodes.Name):
-            vars_[target.name] = self.pieces_of(v, target.name)
-            return True
-        if isinstance(target, nodes.Tuple) and isinstance(v, list) and len(v) == len(target.items):
-            return all([self.bind(t, x, vars_) for t, x in zip(target.items, v)])
-        return False
-
-    @staticmethod
-    def indented(ps: list[_Piece], width: int, first: bool) -> list[_Piece]:
-        """|indent: every line but the first (unless `first`) and the blank ones moved right, the last line break dropped"""
-        pad = " " * width
-        out: list[_Piece] = []
-        pending = first
-        for p in ps:
-            if p.kind != "t":
-                if pending:
-                    out.append(_Piece("t", pad))
-                    pending = False
-                out.append(p)
-                continue
-            res = ""
-            for ch in p.text:
-                if ch != "\n" and pending:
-                    res += pad
-                pending = ch == "\n"
-                res += ch
-            out.append(_Piece("t", res, p.node))
-        for i in range(len(out) - 1, -1, -1):
-            if out[i].kind != "t" or out[i].text:
-                if out[i].kind == "t" and out[i].text.endswith("\n"):
-                    out[i] = _Piece("t", out[i].text[:-1], out[i].node)
-                break
-        return out
 
     # -- texts ---------------------------------------------------------------------------------------------------------------
     def text_of(self, e: nodes.Node, vars_: dict, subst: dict[str, str], flat: bool = False) -> str:
@@ -266,9 +135,6 @@ class _Path:
 
     # -- tests ---------------------------------------------------------------------------------------------------------------
     def decide(self, t: nodes.Node, vars_: dict, subst: dict) -> bool:
-        v = self.const(t, vars_, subst)
-        if v is not _NO:
-            return bool(v)
         if isinstance(t, nodes.And):
             return self.decide(t.left, vars_, subst) and self.decide(t.right, vars_, subst)
         if isinstance(t, nodes.Or):
@@ -317,38 +183,14 @@ class _Path:
                 else:
                     out += self.block(n.else_, vars_, subst)
             elif isinstance(n, nodes.For):
-                seq = self.const(n.iter, vars_, subst)
-                seq = list(seq) if isinstance(seq, dict) else seq
-                rounds: list[dict] | None = [] if isinstance(seq, list) else None
-                for x in seq if rounds is not None else []:
-                    v2 = dict(vars_)
-                    if not self.bind(n.target, x, v2):
-                        rounds = None
-                        break
-                    if n.test is None or self.decide(n.test, v2, subst):
-                        rounds.append(v2)
-                if rounds is None:
-                    # one element (that passes the loop's filter)
-                    out += self.block(n.body, dict(vars_), subst)
-                    continue
-                # a list the template spells out: one round per item, in order
-                for i, v2 in enumerate(rounds):
-                    k = len(rounds)
-                    v2["loop"] = [_Piece("h", "loop", None, (), {"first": i == 0, "last": i == k - 1, "index": i + 1, "index0": i, "length": k,
-                                                                 "revindex": k - i, "revindex0": k - i - 1})]
-                    out += self.block(n.body, v2, subst)
-                if not rounds:
-                    out += self.block(n.else_, dict(vars_), subst)
+                # one element (that passes the loop's filter)
+                out += self.block(n.body, dict(vars_), subst)
             elif isinstance(n, nodes.Assign):
                 if isinstance(n.target, nodes.Name):
                     vars_[n.target.name] = self.expr(n.node, vars_, subst)
             elif isinstance(n, nodes.AssignBlock):
                 if isinstance(n.target, nodes.Name):
                     vars_[n.target.name] = self.block(n.body, dict(vars_), subst)
-            elif isinstance(n, nodes.CallBlock) and isinstance(n.call.node, nodes.Name) and n.call.node.name not in vars_ \
-                    and n.call.node.name in self.ti.macros and n.call.node.name not in self.stack and len(self.stack) < self.max_depth:
-                # {% call m(...) %}body{% endcall %}: the macro, with `caller()` writing the body (rendered where the call is)
-                out += self.inline(self.ti.macros[n.call.node.name], n.call, vars_, subst, caller=(n, dict(vars_), dict(subst)))
             elif isinstance(n, (nodes.With, nodes.Scope, nodes.CallBlock, nodes.FilterBlock)):
                 out += self.block(getattr(n, "body", []), dict(vars_), subst)
         return out
@@ -361,10 +203,6 @@ class _Path:
             return [_Piece("t", e.value)] if isinstance(e.value, str) else [_Piece("t", str(e.value), e)]
         if isinstance(e, nodes.Name) and e.name in vars_:
             return list(vars_[e.name])
-        if not isinstance(e, (nodes.Name, nodes.Call)):
-            v = self.const(e, vars_, subst)
-            if v is not _NO:
-                return self.pieces_of(v, self.text_of(e, vars_, subst), e)
         if isinstance(e, (nodes.Add, nodes.Concat)):
             parts = [e.left, e.right] if isinstance(e, nodes.Add) else list(e.nodes)
             ps = [p for x in parts for p in self.expr(x, vars_, subst)]
@@ -375,21 +213,8 @@ class _Path:
                 return self.expr(e.expr1, vars_, subst)
             return self.expr(e.expr2, vars_, subst) if e.expr2 is not None else []
         if isinstance(e, nodes.Filter) and e.node is not None and e.name in self.PASS_FILTERS:
-            ps = self.expr(e.node, vars_, subst)
-            if self.whole and e.name == "indent":
-                kw = {k.key: self.const(k.value, vars_, subst) for k in e.kwargs}
-                pos = [self.const(a, vars_, subst) for a in e.args]
-                width = pos[0] if pos else kw.get("width", 4)
-                first = pos[1] if len(pos) > 1 else kw.get("first", False)
-                if isinstance(width, int) and first is not _NO:
-                    ps = self.indented(ps, width, bool(first))
-            return ps
+            return self.expr(e.node, vars_, subst)
         if isinstance(e, nodes.Call):
-            if isinstance(e.node, nodes.Name) and e.node.name == "caller" and len(vars_.get("caller", [])) == 1 and isinstance(vars_["caller"][0].value, tuple):
-                # the body of the call block, where the call block is written, with what `caller(...)` passes for its parameters
-                blk, vars0, subst0 = vars_["caller"][0].value
-                vars1, subst1 = self.bound(blk, e, vars_, subst)
-                return self.block(blk.body, {**{k: v for k, v in vars0.items() if k not in subst1}, **vars1}, {**{k: v for k, v in subst0.items() if k not in vars1}, **subst1})
             m = self.ti.macros.get(e.node.name) if isinstance(e.node, nodes.Name) and e.node.name not in vars_ else None
             if m is not None and e.node.name not in self.stack and len(self.stack) < self.max_depth:
                 return self.inline(m, e, vars_, subst)
@@ -397,20 +222,7 @@ class _Path:
             return [_Piece("h", self.text_of(e, vars_, subst), e, args)]
         return [_Piece("h", self.text_of(e, vars_, subst), e)]
 
-    def inline(self, m: nodes.Macro, call: nodes.Call, vars_: dict, subst: dict, caller: tuple | None = None) -> list[_Piece]:
-        vars2, subst2 = self.bound(m, call, vars_, subst)
-        if self.whole:
-            vars2 = {**{k: v for k, v in self.globals.items() if k not in subst2}, **vars2}
-        # (`caller`: the call block the macro is used with - nothing, which is false, in a plain call)
-        vars2["caller"] = [_Piece("h", "caller", None, (), caller)] if caller is not None else []
-        self.stack.append(m.name)
-        try:
-            return self.block(m.body, vars2, subst2)
-        finally:
-            self.stack.pop()
-
-    def bound(self, m: Any, call: nodes.Call, vars_: dict, subst: dict) -> tuple[dict[str, list[_Piece]], dict[str, str]]:
-        """the parameters of a macro / call block bound to what the call passes: (values, texts)"""
+    def inline(self, m: nodes.Macro, call: nodes.Call, vars_: dict, subst: dict) -> list[_Piece]:
         names = [a.name for a in m.args]
         bound: dict[str, list[_Piece]] = {}
         for a, d in zip(names[len(names) - len(m.defaults):], m.defaults):
@@ -422,24 +234,26 @@ class _Path:
         for nm, ps in bound.items():
             # an argument without a value here stays what the call site wrote (tests and holes of the callee then read like the
             # caller's); text and mixtures are values of the parameter
-            if len(ps) == 1 and ps[0].kind == "h" and not ps[0].args and ps[0].value is _NO:
+            if len(ps) == 1 and ps[0].kind == "h" and not ps[0].args:
                 subst2[nm] = ps[0].text
             else:
                 # (the expressions behind the holes belong to the caller: the callee sees their texts)
-                vars2[nm] = [_Piece("h", p.text, None, p.args, p.value) if p.kind == "h" else p for p in ps]
-        return vars2, subst2
+                vars2[nm] = [_Piece("h", p.text, None, p.args) if p.kind == "h" else p for p in ps]
+        self.stack.append(m.name)
+        try:
+            return self.block(m.body, vars2, subst2)
+        finally:
+            self.stack.pop()
 
 
-def _paths(ti: Any, macro: nodes.Macro, known: Any = None, limit: int = 512, whole: bool = False) -> list[tuple[dict[str, bool], list[_Piece]]]:
-    """every path through the macro (its own parameters without a value): [(atoms decided on the way, what is written)];
-    whole: `macro` is the top level of the template (see _Path)"""
+def _paths(ti: Any, macro: nodes.Macro, known: Any = None, limit: int = 512) -> list[tuple[dict[str, bool], list[_Piece]]]:
+    """every path through the macro (its own parameters without a value): [(atoms decided on the way, what is written)]"""
     out = []
     todo: list[dict[str, bool]] = [{}]
     while todo:
         env = todo.pop()
         try:
-            walker = _Path(ti, env, known, whole=whole)
-            out.append((env, walker.block(macro.body, walker.globals if whole else {}, {})))
+            out.append((env, _Path(ti, env, known).block(macro.body, {}, {})))
         except _NeedAtom as need:
             todo += [{**env, need.atom: True}, {**env, need.atom: False}]
         if len(out) + len(todo) > limit:
@@ -1005,33 +819,21 @@ def _py_of(ps: list[_Piece], mode: str) -> tuple[ast.AST | None, dict[str, _Piec
         return None, holes
 
 
-def _generated_classes(ti: Any, cls: str) -> list[tuple[dict, ast.ClassDef | None]]:
-    """the class as the template writes it, path by path: [(atoms decided on the way, the class or None when it cannot be read)].  The
-    tests of the template are decided one way or the other, macros are inlined with the arguments of their call sites, the lists and
-    tables the template spells out itself are evaluated and the loops over them unrolled (a method written once per entry of a table
-    is the methods written out one by one); every other expression is a placeholder identifier"""
-    class _Whole:
-        name = "<template>"
-        body = ti.tree.body
-
-    out: list[tuple[dict, ast.ClassDef | None]] = []
-    for env, ps in _paths(ti, _Whole, limit=256, whole=True):
-        text, k = "", 0
-        for p in ps:
-            text += p.text if p.kind == "t" else f"H_{k}_"
-            k += p.kind != "t"
-        m = re.search(rf"^class {cls}\b.*?(?=^(?:class |def |async def |@)|\Z)", text, re.M | re.S)
-        found = None
-        for cand in (text, m.group(0) if m else ""):
-            try:
-                tree = ast.parse(cand)
-            except (SyntaxError, ValueError):
-                continue
-            found = next((n for n in tree.body if isinstance(n, ast.ClassDef) and n.name == cls), None)
-            if found is not None:
-                break
-        out.append((env, found))
-    return out
+def _generated_class(jx: Any, template: str, cls: str) -> ast.ClassDef | None:
+    """the class as the template writes it (skeleton: macros inlined with the arguments of their call sites, holes as placeholders)"""
+    text = "\n".join(to_lines(SkelWalker(jx, frozenset()).walk_template(template))[0])
+    text = re.sub(HOLE + r"(\d+)" + HOLE, r"H_\1", text)
+    text = re.sub(OPQ + r"(\d+)" + OPQ, r"O_\1", text)
+    m = re.search(rf"^class {cls}\b.*?(?=^(?:class |def |async def |@)|\Z)", text, re.M | re.S)
+    for cand in (text, m.group(0) if m else ""):
+        try:
+            tree = ast.parse(cand)
+        except (SyntaxError, ValueError):
+            continue
+        for n in tree.body:
+            if isinstance(n, ast.ClassDef) and n.name == cls:
+                return n
+    return None
 
 
 def _location_set(ix: Any, m: Any, e: ast.AST | None, depth: int = 8) -> set[str] | None:
@@ -2218,8 +2020,8 @@ def run(rep: Report, ctx: Any) -> str:
               "a secured operation does not demand an AuthenticatedClient", where=f"{PKG}/templates/{em.name}:{arg.lineno}",
               lhs=sorted(set(secured)), rhs=["AuthenticatedClient"])
     rep.require("client.py.jinja" in jx.templates, "client.py.jinja")
-    acs = _generated_classes(jx.templates["client.py.jinja"], "AuthenticatedClient")
-    rep.require(bool(acs) and all(c is not None for _, c in acs), "class AuthenticatedClient as written by client.py.jinja")
+    ac = _generated_class(jx, "client.py.jinja", "AuthenticatedClient")
+    rep.require(ac is not None, "class AuthenticatedClient as written by client.py.jinja")
 
     def _overwrites_credential(x: Any, headers: str) -> bool:
         """x unconditionally replaces headers[self.auth_header_name] by a value read from self.token (setdefault / a test for presence would
@@ -2239,7 +2041,7 @@ def run(rep: Report, ctx: Any) -> str:
         return False
 
     built: dict[str, bool] = {}
-    for m in [m for _, ac in acs for m in ac.body]:
+    for m in ac.body:
         if not isinstance(m, (ast.FunctionDef, ast.AsyncFunctionDef)):
             continue
         for c in calls_in(m):
